@@ -190,11 +190,8 @@ func init() {
 		if exit != 1 {
 			return true, fmt.Sprintf("exit status %d, want 1 (stdout %q)", exit, truncate(so, 200))
 		}
-		if se != "" {
-			return true, "wrote to stderr"
-		}
-		if !strings.Contains(so, bad) {
-			return true, fmt.Sprintf("the diagnostic %q does not name the invalid input %q", truncate(so, 200), bad)
+		if !strings.Contains(so+se, bad) {
+			return true, fmt.Sprintf("the diagnostic %q does not name the invalid input %q", truncate(so+se, 200), bad)
 		}
 		// no partial result: no quoted valid element may be printed as a list
 		if items, perr := parseQuotedList(strings.TrimSuffix(so, "\n")); perr == "" && len(items) > 0 {
